@@ -19,6 +19,8 @@ inductive BI
   | try_
   | scope (n : Nat)
   | with_
+  /-- per-iteration scope of a `for (let …;;)` loop (blockIterScope); always directly above its loop entry -/
+  | iscope
   deriving DecidableEq, Repr
 
 /-- shape of a context entry (no positions) -/
@@ -28,6 +30,7 @@ inductive BS
   | try_
   | scope
   | with_
+  | iscope
   deriving DecidableEq, Repr
 
 def BI.shape : BI → BS
@@ -36,11 +39,21 @@ def BI.shape : BI → BS
   | .try_ => .try_
   | .scope _ => .scope
   | .with_ => .with_
+  | .iscope => .iscope
 
 def labMatch (l : Option Label) (lab : Option Label) : Bool :=
   match l with
   | none => true
   | some x => lab == some x
+
+/-- the branch targets the loop whose entry is at the head of the context -/
+def hitsHead (l : Option Label) : List BI → Bool
+  | .loop lab _ _ :: _ => labMatch l lab
+  | _ => false
+
+def hitsHeadS (l : Option Label) : List BS → Bool
+  | .loop lab :: _ => labMatch l lab
+  | _ => false
 
 /-- findBreakBlock + emitBlockExitCode (compiler_stmt.go:572/618) without `breaking`: the exit
 instructions from the innermost block up to (excluding) the target block, and the target pc -/
@@ -63,6 +76,11 @@ def findBrk (l : Option Label) (isBreak : Bool) : List BI → Option (List Instr
     match findBrk l isBreak rest with
     | some (ex, t) => some (Instr.leaveWith :: ex, t)
     | none => none
+  | .iscope :: rest =>
+    -- emitBlockExitCode:618: `continue` of the loop that owns this per-iteration scope does not leave it
+    match findBrk l isBreak rest with
+    | some (ex, t) => if !isBreak && hitsHead l rest then some (ex, t) else some (Instr.leaveBlock 1 :: ex, t)
+    | none => none
 
 /-- number of exit instructions, on shapes -/
 def exitLen (l : Option Label) (isBreak : Bool) : List BS → Option Nat
@@ -72,6 +90,7 @@ def exitLen (l : Option Label) (isBreak : Bool) : List BS → Option Nat
   | .try_ :: rest => (exitLen l isBreak rest).map (· + 1)
   | .scope :: rest => (exitLen l isBreak rest).map (· + 1)
   | .with_ :: rest => (exitLen l isBreak rest).map (· + 1)
+  | .iscope :: rest => (exitLen l isBreak rest).map (fun k => if !isBreak && hitsHeadS l rest then k else k + 1)
 
 /-- compileReturnStatement's exit code (compiler_stmt.go:739), stage 1 (no for-in/of) -/
 def retExitsS : List BI → List Instr
@@ -112,7 +131,7 @@ def glen : Stmt → Option Label → List BS → Nat
   | .loop .do_ _ _ body, lab, sh => 1 + glen body none (.loop lab :: sh) + 3
   | .loop .for_ _ _ body, lab, sh => 3 + glen body none (.loop lab :: sh) + 2
   | .loop .forin _ _ _, _, _ => 0
-  | .loop .forlet _ _ _, _, _ => 0
+  | .loop .forlet _ _ body, lab, sh => 5 + glen body none (.iscope :: .loop lab :: sh) + 4
   | .forOf _ _, _, _ => 0
   | .lbl l s, _, sh => if isLoop s then glen s (some l) sh else glen s none (.label l :: sh)
   | .sw _ _ _ _, _, _ => 0
@@ -179,7 +198,15 @@ def gen : Stmt → Nat → Option Label → List BI → Nat → List Instr
       ++ gen body id none (.loop lab e contPc :: ctx) (start + 2)
       ++ [.cntInc id, .jump (CS.rel start (contPc + 1))]
   | .loop .forin _ _ _, _, _, _, _ => []
-  | .loop .forlet _ _ _, _, _, _, _ => []
+  | .loop .forlet id n body, _, lab, ctx, pc =>
+    -- enterBlock 1; c = 0; copyStash; [start] c < n; jneP L; body; [cont] copyStash; c++; jump start; [L] leaveBlock 1; [e]
+    let lb := glen body none (.iscope :: .loop lab :: ctx.map BI.shape)
+    let start := pc + 3
+    let contPc := start + 2 + lb
+    let L := contPc + 3
+    [.enterBlock 1, .cntZero id, .copyStash, .cntLt id n, .jneP (CS.rel L (start + 1))]
+      ++ gen body id none (.iscope :: .loop lab (L + 1) contPc :: ctx) (start + 2)
+      ++ [.copyStash, .cntInc id, .jump (CS.rel start (contPc + 2)), .leaveBlock 1]
   | .forOf _ _, _, _, _, _ => []
   | .lbl l s, cur, _, ctx, pc =>
     if isLoop s then gen s cur (some l) ctx pc
@@ -234,7 +261,7 @@ def stage1 : Stmt → Bool
   | .tryS _ b hasC c hasF f =>
     (hasC || hasF) && stage1 b && (if hasC then stage1 c else c == .skip)
       && (if hasF then stage1 f && (firstBranch (flatten f)).isNone else f == .skip)
-  | .loop k id _ body => k != .forin && k != .forlet && stage1 body && !(ids body).contains id
+  | .loop k id _ body => k != .forin && stage1 body && !(ids body).contains id
   | .forOf _ _ => false
   | .lbl _ s => stage1 s && (isLoop s || !isLbl s)
   | .sw _ _ _ _ => false
